@@ -317,3 +317,18 @@ Proof.
   cbn [scale_of fold_right]. destruct H as [->|H]; [apply qmax_l|].
   eapply Qle_trans; [apply IH; auto|apply qmax_r].
 Qed.
+
+(** the weights accepted by [kkt_cert] are barycentric coordinates of [p] over the subset, in order *)
+Lemma kkt_cert_weights Y p subset lam tau :
+  kkt_cert Y p subset lam tau = true ->
+  exists ps, select Y subset = Some ps /\ length lam = length ps /\
+    Forall (fun w => 0 <= w) (map Q2R lam) /\ sum (map Q2R lam) = 1 /\
+    Q2V p = comb (map Q2R lam) (map Q2V ps).
+Proof.
+  unfold kkt_cert. destruct (select Y subset) as [ps|] eqn:Es; [|discriminate].
+  rewrite !andb_true_iff. intros [[Hw Hp] _].
+  exists ps. split; auto.
+  destruct (weights_ok_sound _ _ Hw) as (Hl & Hn & Hs). rewrite !map_length in Hl.
+  split; auto. split; auto. split; auto.
+  rewrite (qveq_sound _ _ Hp). apply Q2V_qcomb.
+Qed.
